@@ -152,5 +152,18 @@ for ci in range(n_cfg):
           f"update differs from the float64 reference by relative {err}")
       break
 
+# which parameters are preconditioned at all: decided on the parameter's own shape
+for shp in [(4, 6), (6,), (3, 2, 4), (40, 2)]:
+  for kw in (dict(), dict(skip_preconditioning_rank_lt=2), dict(skip_preconditioning_dim_size_gt=16), dict(skip_preconditioning_rank_lt=3)):
+    for be in (True, False):
+      cases += 1
+      opt = ds.distributed_shampoo(0.1, block_size=8, best_effort_shape_interpretation=be, **kw)
+      st = opt.init({"w": jnp.zeros(shp, jnp.float32)})
+      skipped = len(st.stats["w"].statistics) == 0
+      want = len(shp) < kw.get("skip_preconditioning_rank_lt", 1) or any(d > kw.get("skip_preconditioning_dim_size_gt", 4096) for d in shp)
+      if skipped != want:
+        add("distributed_shampoo.init", [list(shp), {k: v for k, v in kw.items()}, be],
+            f"parameter {'is' if skipped else 'is not'} excluded from preconditioning, documentation says it {'is' if want else 'is not'}")
+
 print(json.dumps({"cases": cases, "violations": viol,
                   "bound": f"tier={tier}: {n_cfg} seeded random configurations x 3 shapes x 4 steps (eigh roots, float32 state vs float64 reference, tol 5e-3), seed {seed}"}))
